@@ -703,8 +703,10 @@ def r2_casts(ctx):
             if not direct:
                 continue
             n += 1
+            scope = _writer_scope(repo, m)           # the comparison may live in a helper the method calls
             checked = any(isinstance(x, ast.Call) and (ap(x.func) or "").split(".")[-1] in ("array_equal", "can_cast", "allclose")
-                          for x in walk(m.node)) and any(isinstance(x, ast.Raise) for x in walk(m.node))
+                          for f_ in scope for x in walk(f_.node)) and \
+                any(isinstance(x, ast.Raise) for f_ in scope for x in walk(f_.node))
             ctx.ob("C08.R2", f"{_label(ci)}.{name}: cast of the value to the spec's dtype is checked against the source (raise)",
                    checked, ctx.w(m, direct[0]), f"{norm(direct[0])} wraps / truncates elements that do not fit "
                                                  f"(70000 -> 4464 in a 16-bit index list) instead of rejecting them")
@@ -763,6 +765,17 @@ def r3(ctx):
                                    static or _scalar_guarded(au, tgt.id, f.node), ctx.w(f, au),
                                    "arithmetic on a size that may be None without a dominating None test")
     ctx.floor("C08.R3", "arithmetic uses of calc_size results", uses, 3)
+    # None ("no fixed size") and 0 ("nothing on the wire") are both answers: `calc_size() or K` replaces them by a guess
+    for f in repo.all_funcs:
+        if f.parent_fn is not None or f.module.rel not in PAIR_MODULES:
+            continue
+        for c in find_calls(f.node, "calc_size", into_defs=True):
+            p_ = parent(c)
+            if isinstance(p_, ast.BoolOp) and isinstance(p_.op, ast.Or) and p_.values[0] is c and \
+                    any(isinstance(v, ast.Constant) and isinstance(v.value, (int, float)) and v.value for v in p_.values[1:]):
+                ctx.ob("C08.R3", f"{f.qual}: {norm(p_)} replaces an unknown / zero size by a guess", False, ctx.w(f, c),
+                       "entries of unknown size may take fewer bytes than the guess, entries of size 0 take none: a limit "
+                       "computed from it rejects encodings the writer produces")
 
     # consistency of reported fixed sizes with the reader's trace
     base = repo.cls("SerializableBase", SER)
@@ -1974,6 +1987,99 @@ def r23(ctx):
            "'Rest': 4}, shift=False) reads 08 as Enabled=True and cannot write Enabled=True")
 
 
+# ----------------------------------------------------------------------------- R24 (round 9)
+
+_CONTROL_WRAPPERS = {"int", "bool", "len", "getattr", "str", "repr", "isinstance", "hash"}
+
+
+def _raw_mentions(expr, names: Set[str]) -> Set[str]:
+    """names occurring in expr as data (not only inside int()/bool()/getattr(), a subscript index, a comparison or
+    a `.name` / `.value` projection)."""
+    out: Set[str] = set()
+
+    def rec(n):
+        if isinstance(n, ast.Call) and isinstance(n.func, ast.Name) and n.func.id in _CONTROL_WRAPPERS:
+            return
+        if isinstance(n, ast.Compare):
+            return
+        if isinstance(n, ast.Attribute) and n.attr in ("name", "value"):
+            return
+        if isinstance(n, ast.Subscript):
+            rec(n.value)
+            return
+        if isinstance(n, ast.Name) and n.id in names:
+            out.add(n.id)
+        for ch in ast.iter_child_nodes(n):
+            rec(ch)
+    rec(expr)
+    return out
+
+
+def r24(ctx):
+    repo = ctx.repo
+    ctx.rule("C08.R24", "what is read while the reader's pod mode is forced stays a control value: a payload decoded "
+                        "inside `with reader.scoped_pod(K)` is not handed back to the caller as data unless the caller's "
+                        "own mode is known to be K (otherwise plain-data readers get rich objects, or the reverse)")
+    n = 0
+    for label, ci, s, d, sp, dp in discover_pairs(ctx):
+        if dp is None:
+            continue
+        from .common import class_methods_reachable
+        for fi in class_methods_reachable(repo, d, depth=2):
+            prm = dp if fi is d else None
+            for w in [x for x in walk(fi.node) if isinstance(x, ast.With)]:
+                forced = None
+                rname = None
+                for item in w.items:
+                    c = item.context_expr
+                    if isinstance(c, ast.Call) and isinstance(c.func, ast.Attribute) and c.func.attr == "scoped_pod" \
+                            and isinstance(c.func.value, ast.Name):
+                        k = c.args[0] if c.args else kw(c, "pod")
+                        if isinstance(k, ast.Constant) and isinstance(k.value, bool):
+                            forced, rname = k.value, c.func.value.id
+                if forced is None or (prm is not None and rname != prm):
+                    continue
+                n += 1
+                # names bound inside the block to something read from that reader, not wrapped into a control value
+                data: Set[str] = set()
+                for st in stores(ast.Module(body=w.body, type_ignores=[]), into_defs=False):
+                    if st.kind != "assign" or st.value is None or "." in st.path or "[" in st.path:
+                        continue
+                    reads = [c for c in ast.walk(st.value) if isinstance(c, ast.Call) and isinstance(c.func, ast.Attribute)
+                             and ((c.func.attr in ("read", "read_bytes") and ap(c.func.value) == rname) or
+                                  (c.func.attr == "deserialize" and any(ap(a) == rname for a in c.args)))]
+                    if reads:
+                        v = st.value
+                        if not (isinstance(v, ast.Call) and isinstance(v.func, ast.Name) and v.func.id in _CONTROL_WRAPPERS):
+                            data.add(st.path)
+                # ... and whatever is built from those afterwards (a tuple, a dict) without turning them into control values
+                changed = True
+                while changed:
+                    changed = False
+                    for st in stores(fi.node, into_defs=False):
+                        if st.kind == "assign" and st.value is not None and "." not in st.path and "[" not in st.path \
+                                and st.path not in data and _raw_mentions(st.value, data):
+                            if any(ap(e) == f"{rname}.pod" and pol == forced for e, pol in facts(st.node, fi.node)):
+                                continue        # copied where the caller's mode is the forced one: already right
+                            data.add(st.path)
+                            changed = True
+                bad = []
+                for r in [x for x in walk(fi.node) if isinstance(x, ast.Return) and x.value is not None]:
+                    inside = any(r is y for b in w.body for y in ast.walk(b))
+                    direct = inside and any(isinstance(c, ast.Call) and isinstance(c.func, ast.Attribute) and
+                                            c.func.attr in ("read", "deserialize") for c in ast.walk(r.value))
+                    leaked = _raw_mentions(r.value, data)
+                    if not leaked and not direct:
+                        continue
+                    same_mode = any(ap(e) == f"{rname}.pod" and pol == forced for e, pol in facts(r, fi.node))
+                    if not same_mode:
+                        bad.append(f"{norm(r)} hands back {sorted(leaked) or 'the read'} decoded with pod={forced}")
+                ctx.ob("C08.R24", f"{label}.{fi.name}: nothing decoded under the forced pod={forced} block is returned as data "
+                                  f"to a caller in the other mode", not bad, ctx.w(fi, w), "; ".join(bad))
+    # (no floor: a tree that switches the mode by hand - try/finally instead of scoped_pod - has no such block; R14 covers it)
+    ctx.stats["C08.R24.forced-mode blocks on read paths"] = n
+
+
 def run(ctx):
     r1(ctx)
     r2(ctx)
@@ -2000,6 +2106,7 @@ def run(ctx):
     r21(ctx)
     r22(ctx)
     r23(ctx)
+    r24(ctx)
     ctx.assume("read(write(v)) == v over generated spec trees and values is not decided statically; branch "
                "conditions of the two directions are not compared (a flipped test is a value-level fault)")
     ctx.assume("comprehension / generator events are placed where the comprehension is written; closures returned "
